@@ -2,6 +2,8 @@ package main
 
 import (
 	"fmt"
+	"strings"
+	"time"
 
 	"github.com/fluffle/goirc/client"
 
@@ -16,20 +18,61 @@ func init() {
 const c11Alpha = "ab .:;,!?\"' zQ\x00\xff\xc3\xa9"
 
 func c11Text(r *gen.R, n int) string {
-	switch r.N(5) {
+	switch r.N(6) {
 	case 0:
 		return r.Bytes(n, "a")
 	case 1:
 		return r.Bytes(n, "ab ")
 	case 2:
 		return r.AnyBytesNoNL(n)
+	case 3: // runs of UTF-8 continuation / lead bytes with few spaces
+		return r.Bytes(n, "\x80\x81\xbf\xbf\x80\xe2\xc3\xf0 ")
 	default:
 		return r.Bytes(n, c11Alpha)
 	}
 }
 
+// splitGuarded runs the real splitMessage, turning a panic or a failure to terminate into a value.
+func splitGuarded(text string, n int) (ps []string, bad string) {
+	type res struct {
+		ps  []string
+		bad string
+	}
+	ch := make(chan res, 1)
+	go func() {
+		defer func() {
+			if r := recover(); r != nil {
+				ch <- res{nil, fmt.Sprint("PANIC: ", r)}
+			}
+		}()
+		ch <- res{client.VerifSplitMessage(text, n), ""}
+	}()
+	select {
+	case r := <-ch:
+		return r.ps, r.bad
+	case <-time.After(3 * time.Second):
+		return nil, "DID NOT TERMINATE within 3s"
+	}
+}
+
+var c11Abort bool
+
 func c11Case(n int, text string) Case {
-	ps := client.VerifSplitMessage(text, n)
+	ps, bad := splitGuarded(text, n)
+	if bad != "" {
+		if strings.HasPrefix(bad, "DID NOT") {
+			c11Abort = true // the runaway goroutine keeps allocating: finish quickly
+		}
+		return Case{
+			Desc:   fmt.Sprintf("splitMessage(len=%d, SplitLen=%d) %s; text=%q", len(text), n, bad, trunc(text, 60)),
+			Reqs:   []string{"split " + itoa(n) + " " + drv.H(text)},
+			Impl:   []string{bad},
+			Spec:   []string{"spec11 " + itoa(n) + " " + drv.H(text) + " _"},
+			Tag:    "panic-or-hang",
+			Key:    itoa(n) + "|" + text,
+			Replay: map[string]interface{}{"op": "splitMessage", "splitlen": n, "text_hex": drv.H(text), "impl": bad},
+		}
+	}
 	tag := ""
 	if len(ps) > 1 {
 		k := len(ps)
@@ -68,7 +111,7 @@ func c11(c *Ctx) {
 		}
 		for _, t := range []string{"", " ", ". ", ". " + rep("a", e), " " + rep("a", e), rep("a", e), rep("a", e+1), rep(" ", e+5),
 			rep(". ", e), rep("a", e-4) + ". b" + rep("c", e), rep("a", 3*(e-3)), rep("a", 3*(e-3)+1), "a " + rep("b", e), "a. " + rep("b", e),
-			rep("a", e-3) + " " + rep("b", 5), rep("a", e-4) + " " + rep("b", 5), rep("a", e-5) + ", " + rep("b", 5)} {
+			rep("a", e-3) + " " + rep("b", 5), rep("a", e-4) + " " + rep("b", 5), rep("a", e-5) + ", " + rep("b", 5), rep("\x80", e+1), "\xe2" + rep("\x80", e+5), rep("\xc3\xa9", e)} {
 			cases = append(cases, c11Case(n, t))
 		}
 	}
@@ -106,6 +149,9 @@ func c11(c *Ctx) {
 			l = 6000
 		}
 		cases = append(cases, c11Case(n, c11Text(c.R, l)))
+		if c11Abort {
+			break
+		}
 		if len(cases) >= 5000 {
 			c.RunCases(cases)
 			cases = nil
